@@ -19,7 +19,9 @@ PROPERTY = "C06"
 TRACE = "T_Affinity"
 ENUM = {
     "quick":    [dict(module="MC_Affinity", cfg="MC_Affinity_quick.cfg", workers=8)],
-    "thorough": [dict(module="MC_Affinity", cfg="MC_Affinity_thorough.cfg", workers=16, coverage=True)],
+    # coverage (an action never taken = failure) on the small config only: TLC's interim coverage reports of a long run contain zeros
+    "thorough": [dict(module="MC_Affinity", cfg="MC_Affinity_quick.cfg", workers=8, coverage=True),
+                 dict(module="MC_Affinity", cfg="MC_Affinity_thorough.cfg", workers=16)],
 }
 POOL = 12
 CHUNK = 600
@@ -128,9 +130,9 @@ def _poly_ring(rng, t0, t1, f0, f1):
     return pts
 
 
-def _rand_coords(rng, kind, t0, t1):
-    """coordinates of a valid geometry of the given kind inside the time window [t0, t1]."""
-    f = lambda: rng.uniform(200.0, 20000.0)
+def _rand_coords(rng, kind, t0, t1, flo=200.0, fhi=20000.0):
+    """coordinates of a valid geometry of the given kind inside the time window [t0, t1] (frequencies in [flo, fhi])."""
+    f = lambda: rng.uniform(flo, fhi)
     if kind == "TimeStamp":
         return rng.uniform(t0, t1)
     if kind == "TimeInterval":
